@@ -124,6 +124,7 @@ class Gen:
         self.fp_sort = None
         self.arr_sort = None
         self.dt_name = None
+        self.dt_extra = []
 
     # ------------------------------------------------------------ helpers
     def d(self, strategy):
@@ -207,6 +208,7 @@ class Gen:
             out.append(STRING)
         if self.dt_name:
             out.append(('DT', self.dt_name))
+        out += [('DT', n) for n in self.dt_extra]
         return out
 
     def any_sort(self):
@@ -348,8 +350,9 @@ class Gen:
         return app(sel, [arg], sort)
 
     def ctor_app(self, c, d):
-        fs = dict(self.s.dts[self.dt_name])[c]
-        dt = ('DT', self.dt_name)
+        dn = [n for n, cs in self.s.dts.items() if any(c == c2 for c2, _ in cs)][0]
+        fs = dict(self.s.dts[dn])[c]
+        dt = ('DT', dn)
         if not fs:
             return T(c, dt, op='ctor0')
         return app(c, [self.term(s, d) for _, s in fs], dt)
@@ -549,11 +552,13 @@ class Gen:
 
     def p_zero_extend(self, sort, d, name='zero_extend'):
         w = sort[1]
-        k = self.integer(1, w - 1)
+        k = self.integer(0, w - 1)  # index 0 is legal
         inner = ('BV', w - k)
         if w - k >= 2 and self.integer(0, 2) == 0:
-            k2 = self.integer(1, w - k - 1)
-            arg = self.ext_app(name, k2, self.term(('BV', w - k - k2), d))
+            # nested extensions, same or mixed kind, inner index may be 0
+            k2 = self.integer(0, w - k - 1)
+            name2 = name if self.draw(st.booleans()) else self.pick(['zero_extend', 'sign_extend'])
+            arg = self.ext_app(name2, k2, self.term(('BV', w - k - k2), d))
         else:
             arg = self.term(inner, d)
         return self.ext_app(name, k, arg)
@@ -662,8 +667,22 @@ class Gen:
             body = [[c] + [[sel, sort_plain(fs)] for sel, fs in f] for c, f in ctors]
             if self.draw(st.booleans()):
                 s.cmds.append(['declare-datatype', self.dt_name, body])
-            else:
+            elif self.draw(st.booleans()):
                 s.cmds.append(['declare-datatypes', [[self.dt_name, '0']], [body]])
+            else:
+                # several sorts in one declaration, each with its own nullary constructors
+                names, bodies = [[self.dt_name, '0']], [body]
+                for _ in range(self.integer(1, 2)):
+                    dn = self.fresh('E')
+                    cs = [(self.fresh('k'), []) for _ in range(self.pick([1, 2]))]
+                    if self.draw(st.booleans()):
+                        cs.append((self.fresh('k'), [(self.fresh('s'), self.pick([INT, BOOL]))]))
+                    s.dts[dn] = cs
+                    self.dt_extra.append(dn)
+                    names.append([dn, '0'])
+                    bodies.append([[c] + [[sel, sort_plain(fs)] for sel, fs in f] for c, f in cs])
+                s.cmds.append(['declare-datatypes', names, bodies])
+                s.features.add('multi-sort-declare-datatypes')
         # constants
         sorts = []
         for _ in range(self.integer(2, 5)):
